@@ -52,6 +52,7 @@ type loadSpec struct {
 	spare       int
 	timeoutless bool
 	timeout     time.Duration
+	exclude     []iface.IPFSLogEntry // entries the caller says it already holds (FetchOptions.Exclude)
 }
 
 type loadInputs struct {
@@ -136,10 +137,12 @@ func (w *World) abortedLoad() {
 func (w *World) invokeLoader(ctx context.Context, in *loadInputs, sp loadSpec, rcv *Writer, o *ipfslog.LogOptions) (l *ipfslog.IPFSLog, err error) {
 	switch sp.loader {
 	case ldManifest:
-		l, err = ipfslog.NewFromMultihash(ctx, w.St, rcv.ID, in.manifest, o, &ipfslog.FetchOptions{Concurrency: sp.conc, Length: sp.length, Timeout: sp.timeout, ProgressChan: w.curProgress})
+		l, err = ipfslog.NewFromMultihash(ctx, w.St, rcv.ID, in.manifest, o, &ipfslog.FetchOptions{Concurrency: sp.conc, Length: sp.length, Timeout: sp.timeout, ProgressChan: w.curProgress, Exclude: sp.exclude})
 	case ldJSON:
 		given := append([]cid.Cid(nil), in.json.Heads...)
-		l, err = ipfslog.NewFromJSON(ctx, w.St, rcv.ID, in.json, o, w.fetchOpts(sp.conc, sp.length, sp.timeout))
+		fo := w.fetchOpts(sp.conc, sp.length, sp.timeout)
+		fo.Exclude = sp.exclude
+		l, err = ipfslog.NewFromJSON(ctx, w.St, rcv.ID, in.json, o, fo)
 		if !cidsEq(given, in.json.Heads) {
 			w.R.Violate(w.P.Prop+":caller-json-modified", "NewFromJSON rewrote the head list of the JSON form its caller passed: was %v now %v", given, in.json.Heads)
 		}
@@ -148,14 +151,16 @@ func (w *World) invokeLoader(ctx context.Context, in *loadInputs, sp loadSpec, r
 		// write into that capacity in a way that disturbs the result nor reorder what the caller passed
 		src := make([]iface.IPFSLogEntry, len(in.heads), len(in.heads)+sp.spare)
 		copy(src, in.heads)
-		l, err = ipfslog.NewFromEntry(ctx, w.St, rcv.ID, src, o, w.fetchOpts(sp.conc, sp.length, sp.timeout))
+		fo := w.fetchOpts(sp.conc, sp.length, sp.timeout)
+		fo.Exclude = sp.exclude
+		l, err = ipfslog.NewFromEntry(ctx, w.St, rcv.ID, src, o, fo)
 		for i := range in.heads {
 			if src[i] != in.heads[i] {
 				w.R.Violate(w.P.Prop+":caller-slice-modified", "NewFromEntry changed element %d of the slice of entries its caller supplied", i)
 			}
 		}
 	case ldHash:
-		l, err = ipfslog.NewFromEntryHash(ctx, w.St, rcv.ID, in.hash, o, &ipfslog.FetchOptions{Concurrency: sp.conc, Length: sp.length, Timeout: sp.timeout, ProgressChan: w.curProgress})
+		l, err = ipfslog.NewFromEntryHash(ctx, w.St, rcv.ID, in.hash, o, &ipfslog.FetchOptions{Concurrency: sp.conc, Length: sp.length, Timeout: sp.timeout, ProgressChan: w.curProgress, Exclude: sp.exclude})
 	}
 	return
 }
@@ -315,7 +320,20 @@ func RunC09(r *Run) {
 			sp.length = &minusOne
 			r.Probe("unlimited-load-with-explicit-minus-one")
 		}
-		r.Logf("reload n%d via %s conc=%d bias=%d |set|=%d heads=%d", n.Idx, loaderNames[sp.loader], sp.conc, sp.bias, len(in.set), len(in.heads))
+		if r.Choose("with-held-entries", 4) == 0 {
+			// the caller names entries of the log it already holds (originals or copies): the rebuilt log is the
+			// whole log all the same
+			for _, e := range liveSlice(n.Log.GetEntries()) {
+				switch r.Choose("held?", 4) {
+				case 0:
+					sp.exclude = append(sp.exclude, e)
+				case 1:
+					sp.exclude = append(sp.exclude, e.Copy())
+				}
+			}
+			r.Probe("reload-with-held-entries")
+		}
+		r.Logf("reload n%d via %s conc=%d bias=%d |set|=%d heads=%d held=%d", n.Idx, loaderNames[sp.loader], sp.conc, sp.bias, len(in.set), len(in.heads), len(sp.exclude))
 		l, err, _ := w.load(in, sp, Writers()[4])
 		if err != nil {
 			r.Violate("C09:load-error", "%s of a stored log failed with no fault injected: %v", loaderNames[sp.loader], err)
